@@ -1,5 +1,6 @@
-(** Time/DisplayProofs.v — [Musl.display] prints RFC 3339 with the microseconds truncated, and inside
-    years 0000..9999 the printed strings are ordered like the instants. *)
+(** Time/DisplayProofs.v — [display] (TVGen.Gen_datetime, translated from `impl Display for DateTime`) prints
+    RFC 3339 with the microseconds truncated; the printed *fields* are ordered like the instants over the whole
+    range of SystemTime, and inside years 0000..9999 (fixed width) so are the printed strings. *)
 From Coq Require Import ZArith Lia Bool List.
 From TV Require Import Time.Civil Time.CivilProofs Time.Musl Time.MuslProofs Time.Rfc3339.
 Import ListNotations.
@@ -66,6 +67,60 @@ Qed.
 Lemma pad0_total : forall k n, 0 <= n < 10 ^ 40 -> exists ds, pad0 k n = Some ds.
 Proof. intros k n Hn. unfold pad0. destruct (dec_total n Hn) as (ds & ->). eauto. Qed.
 
+(** [dec] prints the shortest numeral: k digits exactly when 10^(k-1) <= n < 10^k (k = 1 for n < 10). *)
+Lemma dec_digits_exact : forall (k : nat) (fuel : nat) n acc,
+  (1 <= k)%nat -> (k <= fuel)%nat -> 0 <= n < 10 ^ Z.of_nat k -> (k = 1%nat \/ 10 ^ Z.of_nat (k - 1) <= n) ->
+  dec_digits fuel n acc = Some (digits k n ++ acc).
+Proof.
+  induction k as [|k IH]; intros fuel n acc Hk Hf Hn Hlow; [lia|].
+  destruct fuel as [|fuel]; [lia|]. cbn [dec_digits digits].
+  destruct (Z.ltb_spec n 10) as [L|L].
+  - assert (k = 0%nat).
+    { destruct Hlow as [E|Hlow]; [lia|]. destruct k; [reflexivity|].
+      replace (S (S k) - 1)%nat with (S k) in Hlow by lia. rewrite pow10_succ in Hlow.
+      pose proof (Z.pow_pos_nonneg 10 (Z.of_nat k) ltac:(lia) ltac:(lia)). lia. }
+    subst k. reflexivity.
+  - rewrite pow10_succ in Hn.
+    assert (Hk' : (1 <= k)%nat).
+    { destruct k; [|lia]. simpl in Hn. lia. }
+    rewrite (IH fuel (n / 10) ((48 + n mod 10) :: acc) Hk' ltac:(lia)).
+    + rewrite <- app_assoc. reflexivity.
+    + Z.div_mod_to_equations; lia.
+    + destruct Hlow as [E|Hlow]; [lia|].
+      destruct (Nat.eq_dec k 1) as [->|NE]; [left; reflexivity|right].
+      replace (S k - 1)%nat with (S (k - 1)) in Hlow by lia. rewrite pow10_succ in Hlow.
+      Z.div_mod_to_equations; lia.
+Qed.
+
+Lemma dec_exact : forall (k : nat) n, (1 <= k <= 40)%nat -> 0 <= n < 10 ^ Z.of_nat k ->
+  (k = 1%nat \/ 10 ^ Z.of_nat (k - 1) <= n) -> dec n = Some (digits k n).
+Proof.
+  intros k n Hk Hn Hl. unfold dec. rewrite (dec_digits_exact k 40 n [] ltac:(lia) ltac:(lia) Hn Hl).
+  rewrite app_nil_r. reflexivity.
+Qed.
+
+(** Every 0 <= n < 10^39 has such a k. *)
+Lemma numeral_length : forall n, 0 <= n < 10 ^ 39 ->
+  exists k : nat, (1 <= k <= 39)%nat /\ n < 10 ^ Z.of_nat k /\ (k = 1%nat \/ 10 ^ Z.of_nat (k - 1) <= n).
+Proof.
+  intros n Hn.
+  assert (G : forall m : nat, (1 <= m)%nat -> n < 10 ^ Z.of_nat m ->
+            exists k : nat, (1 <= k <= m)%nat /\ n < 10 ^ Z.of_nat k /\ (k = 1%nat \/ 10 ^ Z.of_nat (k - 1) <= n)).
+  { induction m as [|m IH]; intros Hm Hlt; [lia|].
+    destruct (Nat.eq_dec m 0) as [->|NE]; [exists 1%nat; repeat split; auto; lia|].
+    destruct (Z.lt_ge_cases n (10 ^ Z.of_nat m)) as [L|G].
+    - destruct (IH ltac:(lia) L) as (k & Hk & Hk1 & Hk2). exists k. repeat split; auto; lia.
+    - exists (S m). repeat split; try lia. right. replace (S m - 1)%nat with m by lia. lia. }
+  apply (G 39%nat); [lia|]. exact (proj2 Hn).
+Qed.
+
+(** `{:0w}` / `{}` of a non-negative integer that fits w digits: exactly w digits. *)
+Lemma fmt_int_digits : forall (k : nat) n, (1 <= k <= 40)%nat -> 0 <= n < 10 ^ Z.of_nat k ->
+  fmt_int k n = Some (digits k n).
+Proof.
+  intros k n Hk Hn. unfold fmt_int. destruct (Z.ltb_spec n 0); [lia|]. apply pad0_digits; assumption.
+Qed.
+
 (* ---------------------------------------------------------------------------------------------- *)
 (** * The shape of [display] *)
 
@@ -73,29 +128,67 @@ Definition fields_in_range (dt : datetime) : Prop :=
   - 10 ^ 39 < year dt < 10 ^ 39 /\ 0 <= month dt < 100 /\ 0 <= day dt < 100 /\ 0 <= hour dt < 100 /\
   0 <= minute dt < 100 /\ 0 <= second dt < 100 /\ 0 <= nanos dt < 1000000000.
 
-(** For every record: some year text, then `-MM-DDThh:mm:ss.ffffffZ` with ffffff = floor(nanos / 1000);
-    for years 0000..9999 the year text is the four digits. *)
-Lemma display_shape : forall dt, fields_in_range dt ->
+(** The text of the year, by the three branches of `Display::fmt`:
+      0 <= y <= 9999   `{:04}`  four digits;
+      y > 9999         `+{}`    a plus sign and the shortest numeral (at least five digits);
+      y < 0            `{:05}`  a minus sign and at least four digits, zero-padded only up to four. *)
+Definition year_text (y : Z) (ytext : list Z) : Prop :=
+  (0 <= y <= 9999 -> ytext = digits 4 y) /\
+  (9999 < y -> exists k : nat, (5 <= k)%nat /\ 10 ^ Z.of_nat (k - 1) <= y < 10 ^ Z.of_nat k /\ ytext = ch_plus :: digits k y) /\
+  (y < 0 -> exists k : nat, (4 <= k)%nat /\ - y < 10 ^ Z.of_nat k /\ (k = 4%nat \/ 10 ^ Z.of_nat (k - 1) <= - y) /\
+            ytext = ch_minus :: digits k (- y)).
+
+(** For every record: the year text, then `-MM-DDThh:mm:ss.ffffffZ` with ffffff = floor(nanos / 1000). *)
+Lemma display_shape : forall md dt, fields_in_range dt ->
   exists ytext,
-    display dt = Some (ytext ++ tail_text (month dt) (day dt) (hour dt) (minute dt) (second dt) (nanos dt / 1000)) /\
-    (0 <= year dt <= 9999 -> ytext = digits 4 (year dt)).
+    display md dt = Some (ytext ++ tail_text (month dt) (day dt) (hour dt) (minute dt) (second dt) (nanos dt / 1000)) /\
+    year_text (year dt) ytext.
 Proof.
-  intros dt (Hy & Hmo & Hd & Hh & Hmi & Hs & Hn). unfold display.
-  assert (P2 : forall n, 0 <= n < 100 -> pad0 2 n = Some (digits 2 n)).
-  { intros n H. apply pad0_digits; [lia|]. change (10 ^ Z.of_nat 2) with 100. lia. }
+  intros md dt (Hy & Hmo & Hd & Hh & Hmi & Hs & Hn). unfold display.
+  assert (P2 : forall n, 0 <= n < 100 -> fmt_int 2 n = Some (digits 2 n)).
+  { intros n H. apply fmt_int_digits; [lia|]. change (10 ^ Z.of_nat 2) with 100. lia. }
   rewrite (P2 _ Hmo), (P2 _ Hd), (P2 _ Hh), (P2 _ Hmi), (P2 _ Hs).
+  rewrite (div_ok U32 (nanos dt) 1000) by (first [lia | apply fits_intro; cbn [ty_min ty_max]; Z.to_euclidean_division_equations; lia]).
   rewrite Z.quot_div_nonneg by lia.
-  rewrite (pad0_digits 6 (nanos dt / 1000)) by (try lia; change (10 ^ Z.of_nat 6) with 1000000; Z.div_mod_to_equations; lia).
+  rewrite (fmt_int_digits 6 (nanos dt / 1000)) by (try lia; change (10 ^ Z.of_nat 6) with 1000000; Z.div_mod_to_equations; lia).
   assert (B39 : 10 ^ 39 < 10 ^ 40) by (vm_compute; reflexivity).
   assert (B4 : 10 ^ Z.of_nat 4 = 10000) by reflexivity.
-  destruct (Z.ltb_spec 9999 (year dt)).
-  - destruct (dec_total (year dt) ltac:(lia)) as (ds & ->).
-    exists (ch_plus :: ds). split; [reflexivity|]. intros; lia.
-  - destruct (Z.ltb_spec (year dt) 0).
-    + destruct (pad0_total 4 (- year dt) ltac:(lia)) as (ds & ->).
-      exists (ch_minus :: ds). split; [reflexivity|]. intros; lia.
-    + rewrite (pad0_digits 4 (year dt)) by lia.
-      exists (digits 4 (year dt)). split; [reflexivity|]. intros; reflexivity.
+  assert (B3 : 10 ^ Z.of_nat 3 = 1000) by reflexivity.
+  cbv beta iota.
+  destruct (Z.ltb_spec 9999 (year dt)) as [Y|Y].
+  - (* +{} *)
+    destruct (numeral_length (year dt) ltac:(lia)) as (k & Hk & Hk1 & Hk2).
+    assert (K5 : (5 <= k)%nat).
+    { destruct (le_lt_dec 5 k) as [?|Lt]; [assumption|exfalso].
+      assert (10 ^ Z.of_nat k <= 10 ^ Z.of_nat 4) by (apply Z.pow_le_mono_r; lia). lia. }
+    unfold fmt_int. destruct (Z.ltb_spec (year dt) 0); [lia|].
+    unfold pad0. rewrite (dec_exact k (year dt) ltac:(lia) ltac:(lia) Hk2). cbv beta iota.
+    rewrite digits_length, Nat.sub_0_l. change (repeat 48 0) with (@nil Z). rewrite app_nil_l.
+    exists (ch_plus :: digits k (year dt)). split; [reflexivity|]. unfold year_text. repeat split; intros; try lia.
+    exists k. repeat split; lia.
+  - destruct (Z.ltb_spec (year dt) 0) as [N|N].
+    + (* {:05} of a negative year *)
+      destruct (numeral_length (- year dt) ltac:(lia)) as (k & Hk & Hk1 & Hk2).
+      unfold fmt_int. destruct (Z.ltb_spec (year dt) 0); [|lia].
+      rewrite (dec_exact k (- year dt) ltac:(lia) ltac:(lia) Hk2). cbv beta iota. rewrite digits_length.
+      destruct (le_lt_dec 4 k) as [K4|K4].
+      * replace (5 - 1 - k)%nat with 0%nat by lia. change (repeat 48 0) with (@nil Z). rewrite app_nil_l.
+        exists (ch_minus :: digits k (- year dt)). split; [reflexivity|]. unfold year_text. repeat split; intros; try lia.
+        exists k. repeat split; lia.
+      * (* fewer than four digits: padded to four *)
+        assert (E : repeat 48 (5 - 1 - k) ++ digits k (- year dt) = digits 4 (- year dt)).
+        { assert (L4 : - year dt < 10 ^ Z.of_nat 4).
+          { assert (10 ^ Z.of_nat k <= 10 ^ Z.of_nat 3) by (apply Z.pow_le_mono_r; lia). lia. }
+          pose proof (pad0_digits 4 (- year dt) ltac:(lia) ltac:(lia)) as P. unfold pad0 in P.
+          rewrite (dec_exact k (- year dt) ltac:(lia) ltac:(lia) Hk2) in P. cbv beta iota in P.
+          rewrite digits_length in P. injection P as P. replace (5 - 1 - k)%nat with (4 - k)%nat by lia. exact P. }
+        rewrite E.
+        exists (ch_minus :: digits 4 (- year dt)). split; [reflexivity|]. unfold year_text. repeat split; intros; try lia.
+        assert (10 ^ Z.of_nat k <= 10 ^ Z.of_nat 3) by (apply Z.pow_le_mono_r; lia).
+        exists 4%nat. repeat split; lia.
+    + (* {:04} *)
+      rewrite (fmt_int_digits 4 (year dt)) by lia. cbv beta iota.
+      exists (digits 4 (year dt)). split; [reflexivity|]. unfold year_text. repeat split; intros; try lia; reflexivity.
 Qed.
 
 Lemma rfc3339_length : forall y m d h mi s us, length (rfc3339 y m d h mi s us) = 27%nat.
@@ -114,7 +207,7 @@ Proof.
   destruct (civil_from_secs sec) as [[[y m] d] [[h mi] s]] eqn:E.
   unfold civil_from_secs in E.
   assert (E1 : civil_from_days (sec / SECS_PER_DAY) = (y, m, d)) by congruence.
-  unfold dt_of_civil in U. subst dt. cbn [year month day hour minute second Musl.nanos] in *.
+  unfold dt_of_civil in U. subst dt. cbn [year month day hour minute second MuslBase.nanos] in *.
   unfold I64_MIN, I64_MAX, NANOS_PER_SEC, SECS_PER_DAY in *.
   assert (Hd : -110000000000000 <= sec / 86400 <= 110000000000000) by (Z.div_mod_to_equations; lia).
   pose proof (civil_from_days_year_ge _ _ _ _ (-1000000000000) E1) as G.
@@ -123,29 +216,31 @@ Proof.
   assert (D2 : 110000000000000 < days_from_civil (1000000000000 + 1) 1 1) by (vm_compute; reflexivity).
   assert (P39 : 10 ^ 39 = 1000000000000000000000000000000000000000) by reflexivity.
   destruct V as [Vm Vd]. pose proof (days_in_month_le_31 y m). unfold valid_time in T.
-  unfold fields_in_range. cbn [year month day hour minute second Musl.nanos]. rewrite P39. lia.
+  unfold fields_in_range. cbn [year month day hour minute second MuslBase.nanos]. rewrite P39. lia.
 Qed.
 
 (* ---------------------------------------------------------------------------------------------- *)
 (** * What is printed *)
 
-(** Every instant, release build: the date/time fields are those of [civil_from_secs], the six fractional
-    digits are floor(tv_nsec / 1000) (truncated, never rounded up). *)
-Theorem format_release_shape : forall sec nsec, valid_systemtime sec nsec ->
+(** Every instant, both shipped build profiles: the date/time fields are those of [civil_from_secs], the six
+    fractional digits are floor(tv_nsec / 1000) (truncated, never rounded up), the year text is given by the
+    three branches of Display::fmt. *)
+Theorem format_shape : forall md, md = release \/ md = debug ->
+  forall sec nsec, valid_systemtime sec nsec ->
   forall y m d h mi s, civil_from_secs sec = ((y, m, d), (h, mi, s)) ->
   exists ytext,
-    format_system_time release sec nsec = Some (ytext ++ tail_text m d h mi s (nsec / 1000)) /\
-    (0 <= y <= 9999 -> ytext = digits 4 y) /\
+    format_system_time md sec nsec = Some (ytext ++ tail_text m d h mi s (nsec / 1000)) /\
+    year_text y ytext /\
     (nsec / 1000) * 1000 <= nsec < (nsec / 1000) * 1000 + 1000.
 Proof.
-  intros sec nsec V y m d h mi s E. unfold format_system_time.
-  rewrite (correct_release_functional sec nsec V), E. unfold dt_of_civil.
-  destruct (correct_release sec nsec V) as (dt & E' & C).
-  rewrite (correct_release_functional sec nsec V), E in E'. unfold dt_of_civil in E'.
+  intros md Hmd sec nsec V y m d h mi s E. unfold format_system_time.
+  destruct (correct_shipped md Hmd sec nsec V) as (dt & E' & C).
+  rewrite E'.
+  rewrite (correct_functional md Hmd sec nsec V), E in E'. unfold dt_of_civil in E'.
   injection E' as <-.
-  destruct (display_shape _ (civil_fields_in_range _ _ _ V C)) as (ytext & D & Y).
-  cbn [year month day hour minute second Musl.nanos] in *.
-  exists ytext. split; [exact D|]. split; [exact Y|]. Z.div_mod_to_equations. lia.
+  destruct (display_shape md _ (civil_fields_in_range _ _ _ V C)) as (ytext & D & Y).
+  cbn [year month day hour minute second MuslBase.nanos] in *.
+  exists ytext. split; [rewrite D; reflexivity|]. split; [exact Y|]. Z.div_mod_to_equations. lia.
 Qed.
 
 (** In years 0000..9999 the output is exactly RFC 3339, 27 bytes; both build profiles. *)
@@ -155,15 +250,8 @@ Theorem format_rfc3339 : forall md, md = release \/ md = debug ->
   format_system_time md sec nsec = Some (rfc3339 y m d h mi s (nsec / 1000)).
 Proof.
   intros md Hmd sec nsec V y m d h mi s E Hy.
-  assert (NK : ~ F20_instant sec nsec).
-  { intros [-> _]. vm_compute in E. injection E as <- _ _ _ _ _. lia. }
-  assert (Smd : sound md) by (destruct Hmd; subst; [apply sound_release | apply sound_debug]).
-  destruct (from_systemtime_ok md Smd sec nsec V NK) as (dt & Edt & C).
-  unfold format_system_time. rewrite Edt.
-  pose proof (is_civil_time_of_unique dt sec nsec C) as U. rewrite E in U. unfold dt_of_civil in U.
-  destruct (display_shape _ (civil_fields_in_range _ _ _ V C)) as (ytext & D & Y).
-  subst dt. cbn [year month day hour minute second Musl.nanos] in *.
-  rewrite D, (Y Hy). reflexivity.
+  destruct (format_shape md Hmd sec nsec V _ _ _ _ _ _ E) as (ytext & F & (Y & _) & _).
+  rewrite F, (Y Hy). reflexivity.
 Qed.
 
 (* ---------------------------------------------------------------------------------------------- *)
@@ -186,19 +274,102 @@ Proof.
     apply lex_le_app_l. cbn [app lex_le]. left. Z.div_mod_to_equations. lia.
 Qed.
 
-(** One field: smaller prints smaller whatever follows; equal defers to what follows. *)
-Lemma lex_field : forall k a b s s', 0 <= a <= b -> b < 10 ^ Z.of_nat k ->
-  (a = b -> lex_le s s') -> lex_le (digits k a ++ s) (digits k b ++ s').
+(** One fixed-width field in front of two strings: a smaller value prints smaller whatever follows; an equal
+    value defers to what follows. *)
+Lemma lex_field : forall k a b s s', 0 <= a -> b < 10 ^ Z.of_nat k ->
+  a < b \/ (a = b /\ lex_le s s') -> lex_le (digits k a ++ s) (digits k b ++ s').
 Proof.
-  intros k a b s s' Hab Hb Hs. destruct (Z.eq_dec a b) as [->|NE].
-  - apply lex_le_app_l. auto.
+  intros k a b s s' Ha Hb [L|[-> Hs]].
   - apply lex_le_digits_lt; lia.
+  - apply lex_le_app_l. exact Hs.
 Qed.
 
 Lemma lex_sep : forall c s s', lex_le s s' -> lex_le ([c] ++ s) ([c] ++ s').
 Proof. intros. apply lex_le_app_l. assumption. Qed.
 
-(** Printed strings are ordered like the instants (years 0000..9999, where the width is fixed). *)
+(** ** The calendar itself is monotone: a later instant has lexicographically later-or-equal fields
+    (year, month, day, hour, minute, second, microsecond) — for all integers, no range needed. *)
+Lemma time_fields_monotone : forall r1 r2 n1 n2,
+  0 <= r1 < 86400 -> 0 <= r2 < 86400 -> 0 <= n1 < 1000000000 -> 0 <= n2 < 1000000000 ->
+  r1 < r2 \/ (r1 = r2 /\ n1 <= n2) ->
+  lex_le [r1 / 3600; r1 / 60 mod 60; r1 mod 60; n1 / 1000] [r2 / 3600; r2 / 60 mod 60; r2 mod 60; n2 / 1000].
+Proof. intros. cbn [lex_le]. Z.div_mod_to_equations; lia. Qed.
+
+Lemma civil_fields_monotone : forall s1 n1 s2 n2 y1 m1 d1 h1 mi1 c1 y2 m2 d2 h2 mi2 c2,
+  0 <= n1 < 1000000000 -> 0 <= n2 < 1000000000 ->
+  s1 < s2 \/ (s1 = s2 /\ n1 <= n2) ->
+  civil_from_secs s1 = ((y1, m1, d1), (h1, mi1, c1)) -> civil_from_secs s2 = ((y2, m2, d2), (h2, mi2, c2)) ->
+  lex_le [y1; m1; d1; h1; mi1; c1; n1 / 1000] [y2; m2; d2; h2; mi2; c2; n2 / 1000].
+Proof.
+  intros s1 n1 s2 n2 y1 m1 d1 h1 mi1 c1 y2 m2 d2 h2 mi2 c2 Hn1 Hn2 Ord E1 E2.
+  unfold civil_from_secs, SECS_PER_DAY in E1, E2.
+  assert (A1 : civil_from_days (s1 / 86400) = (y1, m1, d1)) by congruence.
+  assert (A2 : civil_from_days (s2 / 86400) = (y2, m2, d2)) by congruence.
+  assert (T1 : time_from_secs_of_day (s1 mod 86400) = (h1, mi1, c1)) by congruence.
+  assert (T2 : time_from_secs_of_day (s2 mod 86400) = (h2, mi2, c2)) by congruence.
+  clear E1 E2.
+  destruct (cfd_correct _ _ _ _ A1) as [Va Da]. destruct (cfd_correct _ _ _ _ A2) as [Vb Db].
+  assert (Dle : days_from_civil y1 m1 d1 <= days_from_civil y2 m2 d2)
+    by (rewrite Da, Db; Z.div_mod_to_equations; lia).
+  destruct (days_from_civil_le_inv _ _ _ _ _ _ Va Vb Dle) as [Q|Q].
+  - (* same day: the time of day decides *)
+    injection Q as <- <- <-.
+    assert (Eq : s1 / 86400 = s2 / 86400) by congruence.
+    unfold time_from_secs_of_day in T1, T2. injection T1 as <- <- <-. injection T2 as <- <- <-.
+    assert (R1 : 0 <= s1 mod 86400 < 86400) by (apply Z.mod_pos_bound; lia).
+    assert (R2 : 0 <= s2 mod 86400 < 86400) by (apply Z.mod_pos_bound; lia).
+    assert (Ord' : s1 mod 86400 < s2 mod 86400 \/ (s1 mod 86400 = s2 mod 86400 /\ n1 <= n2)).
+    { pose proof (Z.div_mod s1 86400 ltac:(lia)). pose proof (Z.div_mod s2 86400 ltac:(lia)). lia. }
+    pose proof (time_fields_monotone _ _ _ _ R1 R2 Hn1 Hn2 Ord') as T.
+    cbn [lex_le]. right; split; [reflexivity|]. right; split; [reflexivity|]. right; split; [reflexivity|].
+    exact T.
+  - (* an earlier day: the date decides *)
+    unfold date_lt in Q. cbn [lex_le]. lia.
+Qed.
+
+(** ** The fields the code prints are ordered like the instants — over the whole range of SystemTime,
+    in both shipped build profiles. *)
+Theorem monotone_fields : forall md, md = release \/ md = debug ->
+  forall s1 n1 s2 n2 d1 d2,
+  valid_systemtime s1 n1 -> valid_systemtime s2 n2 ->
+  s1 < s2 \/ (s1 = s2 /\ n1 <= n2) ->
+  from_systemtime md s1 n1 = Some d1 -> from_systemtime md s2 n2 = Some d2 ->
+  lex_le (fields_of d1) (fields_of d2).
+Proof.
+  intros md Hmd s1 n1 s2 n2 d1 d2 V1 V2 Ord F1 F2.
+  rewrite (correct_functional md Hmd s1 n1 V1) in F1. rewrite (correct_functional md Hmd s2 n2 V2) in F2.
+  destruct (civil_from_secs s1) as [[[y1 m1] dd1] [[h1 mi1] c1]] eqn:E1.
+  destruct (civil_from_secs s2) as [[[y2 m2] dd2] [[h2 mi2] c2]] eqn:E2.
+  unfold dt_of_civil in F1, F2. injection F1 as <-. injection F2 as <-.
+  unfold fields_of. cbn [year month day hour minute second MuslBase.nanos].
+  destruct V1 as [_ Hn1]. destruct V2 as [_ Hn2]. unfold NANOS_PER_SEC in *.
+  exact (civil_fields_monotone _ _ _ _ _ _ _ _ _ _ _ _ _ _ _ _ Hn1 Hn2 Ord E1 E2).
+Qed.
+
+(** ** Fixed-width fields: field order is byte order of the RFC 3339 text. *)
+Lemma rfc3339_order : forall y1 m1 d1 h1 mi1 c1 u1 y2 m2 d2 h2 mi2 c2 u2,
+  0 <= y1 -> y2 <= 9999 -> 0 <= m1 -> m2 < 100 -> 0 <= d1 -> d2 < 100 -> 0 <= h1 -> h2 < 100 ->
+  0 <= mi1 -> mi2 < 100 -> 0 <= c1 -> c2 < 100 -> 0 <= u1 -> u2 < 1000000 ->
+  lex_le [y1; m1; d1; h1; mi1; c1; u1] [y2; m2; d2; h2; mi2; c2; u2] ->
+  lex_le (rfc3339 y1 m1 d1 h1 mi1 c1 u1) (rfc3339 y2 m2 d2 h2 mi2 c2 u2).
+Proof.
+  intros y1 m1 d1 h1 mi1 c1 u1 y2 m2 d2 h2 mi2 c2 u2 ? ? ? ? ? ? ? ? ? ? ? ? ? ? L.
+  assert (P4 : 10 ^ Z.of_nat 4 = 10000) by reflexivity.
+  assert (P2 : 10 ^ Z.of_nat 2 = 100) by reflexivity.
+  assert (P6 : 10 ^ Z.of_nat 6 = 1000000) by reflexivity.
+  cbn [lex_le] in L. unfold rfc3339, tail_text.
+  apply lex_field; [lia | lia |]. destruct L as [L|[-> L]]; [left; exact L|right; split; [reflexivity|]]. apply lex_sep.
+  apply lex_field; [lia | lia |]. destruct L as [L|[-> L]]; [left; exact L|right; split; [reflexivity|]]. apply lex_sep.
+  apply lex_field; [lia | lia |]. destruct L as [L|[-> L]]; [left; exact L|right; split; [reflexivity|]]. apply lex_sep.
+  apply lex_field; [lia | lia |]. destruct L as [L|[-> L]]; [left; exact L|right; split; [reflexivity|]]. apply lex_sep.
+  apply lex_field; [lia | lia |]. destruct L as [L|[-> L]]; [left; exact L|right; split; [reflexivity|]]. apply lex_sep.
+  apply lex_field; [lia | lia |]. destruct L as [L|[-> L]]; [left; exact L|right; split; [reflexivity|]]. apply lex_sep.
+  apply lex_field; [lia | lia |]. destruct L as [L|[-> L]]; [left; exact L|right; split; [reflexivity|]].
+  apply lex_le_refl.
+Qed.
+
+(** Printed strings are ordered like the instants (years 0000..9999, where the width is fixed): the
+    corollary of [monotone_fields] and [rfc3339_order]. *)
 Theorem monotone : forall md, md = release \/ md = debug ->
   forall s1 n1 s2 n2 o1 o2,
   valid_systemtime s1 n1 -> valid_systemtime s2 n2 ->
@@ -229,43 +400,12 @@ Proof.
   rewrite (format_rfc3339 md Hmd s1 n1 V1 _ _ _ _ _ _ E1 Hy1) in F1.
   rewrite (format_rfc3339 md Hmd s2 n2 V2 _ _ _ _ _ _ E2 Hy2) in F2.
   injection F1 as <-. injection F2 as <-.
-  (* dates *)
-  destruct (cfd_correct _ _ _ _ A1) as [Va Da]. destruct (cfd_correct _ _ _ _ A2) as [Vb Db].
-  assert (Dle : days_from_civil y1 m1 d1 <= days_from_civil y2 m2 d2)
-    by (rewrite Da, Db; Z.div_mod_to_equations; lia).
-  pose proof (days_from_civil_le_inv _ _ _ _ _ _ Va Vb Dle) as DL0. unfold date_lt in DL0.
-  assert (DL : (y1 = y2 /\ m1 = m2 /\ d1 = d2) \/ (y1 < y2 \/ y1 = y2 /\ (m1 < m2 \/ m1 = m2 /\ d1 < d2)))
-    by (destruct DL0 as [Q|Q]; [left; repeat split; congruence | right; exact Q]).
-  clear DL0.
-  assert (SameDay : (y1, m1, d1) = (y2, m2, d2) -> s1 / 86400 = s2 / 86400) by (intros Q; congruence).
-  (* times of day *)
-  unfold time_from_secs_of_day in T1, T2.
-  assert (H1 : h1 = s1 mod 86400 / 3600 /\ mi1 = s1 mod 86400 / 60 mod 60 /\ c1 = s1 mod 86400 mod 60) by (repeat split; congruence).
-  assert (H2 : h2 = s2 mod 86400 / 3600 /\ mi2 = s2 mod 86400 / 60 mod 60 /\ c2 = s2 mod 86400 mod 60) by (repeat split; congruence).
-  clear T1 T2 A1 A2 E1 E2.
-  destruct H1 as (-> & -> & ->). destruct H2 as (-> & -> & ->).
   destruct V1 as [_ Hn1]. destruct V2 as [_ Hn2]. unfold NANOS_PER_SEC in *.
-  destruct Va as [Vm1 Vd1]. destruct Vb as [Vm2 Vd2].
+  pose proof (civil_fields_monotone _ _ _ _ _ _ _ _ _ _ _ _ _ _ _ _ Hn1 Hn2 Ord E1 E2) as FL.
+  destruct (cfd_correct _ _ _ _ A1) as [[Vm1 Vd1] _]. destruct (cfd_correct _ _ _ _ A2) as [[Vm2 Vd2] _].
   pose proof (days_in_month_le_31 y1 m1). pose proof (days_in_month_le_31 y2 m2).
   assert (R1 : 0 <= s1 mod 86400 < 86400) by (apply Z.mod_pos_bound; lia).
   assert (R2 : 0 <= s2 mod 86400 < 86400) by (apply Z.mod_pos_bound; lia).
-  pose proof (Z.div_mod s1 86400 ltac:(lia)) as Q1. pose proof (Z.div_mod s2 86400 ltac:(lia)) as Q2.
-  set (r1 := s1 mod 86400) in *. set (r2 := s2 mod 86400) in *.
-  set (q1 := s1 / 86400) in *. set (q2 := s2 / 86400) in *.
-  assert (P4 : 10 ^ Z.of_nat 4 = 10000) by reflexivity.
-  assert (P2 : 10 ^ Z.of_nat 2 = 100) by reflexivity.
-  assert (P6 : 10 ^ Z.of_nat 6 = 1000000) by reflexivity.
-  unfold rfc3339, tail_text.
-  apply lex_field; [lia | rewrite P4; lia |]. intros Ey. apply lex_sep.
-  apply lex_field; [lia | rewrite P2; lia |]. intros Em. apply lex_sep.
-  apply lex_field; [lia | rewrite P2; lia |]. intros Ed. apply lex_sep.
-  assert (Eq : q1 = q2) by (apply SameDay; congruence).
-  assert (Rle : r1 <= r2) by lia.
-  apply lex_field; [Z.div_mod_to_equations; lia | rewrite P2; Z.div_mod_to_equations; lia |]. intros Eh. apply lex_sep.
-  apply lex_field; [Z.div_mod_to_equations; lia | rewrite P2; Z.div_mod_to_equations; lia |]. intros Emi. apply lex_sep.
-  apply lex_field; [Z.div_mod_to_equations; lia | rewrite P2; Z.div_mod_to_equations; lia |]. intros Es. apply lex_sep.
-  assert (Er : r1 = r2) by (Z.div_mod_to_equations; lia).
-  assert (Nle : n1 <= n2) by lia.
-  apply lex_field; [Z.div_mod_to_equations; lia | rewrite P6; Z.div_mod_to_equations; lia |]. intros _.
-  apply lex_le_refl.
+  unfold time_from_secs_of_day in T1, T2. injection T1 as <- <- <-. injection T2 as <- <- <-.
+  apply rfc3339_order; try lia; try exact FL; Z.div_mod_to_equations; lia.
 Qed.
